@@ -1204,6 +1204,8 @@ void KFoldCV(MODELINPUT *input,
     /*Finalize the output by dividing for the number of times that the object was predicted*/
 
     if(predicted_y != NULL){
+      /* resize in place first: MatrixCopy() replaces a destination of another shape by a NEW object, which would leave the caller's pointer dangling */
+      ResizeMatrix(predicted_y, y_predicted->row, y_predicted->col);
       MatrixCopy(y_predicted, &predicted_y);
     }
 
